@@ -1,5 +1,5 @@
 """C17: derive_ex(Eq) is refused unless every compared component is Eq."""
-import random, json, itertools
+import random, json, itertools, re as _re
 import elayer as E, glayer, refmodel as R
 
 LEVEL = "other"
@@ -23,6 +23,7 @@ pub fn _eq<T>(_x: &T) -> NE { NE(0) }
 pub fn _f<T>(_x: &T) -> u8 { 0 }
 pub fn by_b<T>(_a: &T, _b: &T) -> bool { true }
 pub fn by_o<T>(_a: &T, _b: &T) -> core::cmp::Ordering { core::cmp::Ordering::Equal }
+pub fn by_po<T>(_a: &T, _b: &T) -> Option<core::cmp::Ordering> { None }
 '''
 # per-field configurations: (attribute text, component that must be Eq: 'field' | 'eq' | 'ne' | None)
 CONFIGS = [
@@ -35,7 +36,12 @@ CONFIGS = [
     ("#[eq(by = by_b)] #[ord(key = key_ne(&$))]", None),
     ("#[partial_eq(ignore)] #[eq(ignore)]", None),
     ("#[eq(key = key_ne(&$))] #[ord(by = by_o)]", "ne"), ("#[eq(key = key_eq(&$))] #[ord(by = by_o)]", "eq"), ("#[eq(key = key_f(&$))] #[ord(key = key_eq(&$))]", "ne"),
-    ("#[eq(by = by_b)] #[ord(by = by_o)]", None), ("#[eq(key = _eq(&$))]", "ne"), ("#[ord(key = _eq(&$))]", "ne"), ("#[eq(key = _f(&$))]", "eq"), ("#[ord(key = key_ne(&$))] #[partial_eq(key = key_eq(&$))]", "ne"),
+    ("#[eq(by = by_b)] #[ord(by = by_o)]", None), ("#[eq(key = _eq(&$))]", "ne"),
+    # a key / by on a less general attribute that PartialEq follows but Eq does not look at: the documented answer is derive_ex's own error
+    # (the default implementation of Eq cannot be used), whatever the field type - never an Eq that asserts something `==` does not compare
+    ("#[partial_ord(key = key_ne(&$))]", "refuse"), ("#[partial_ord(key = key_eq(&$))]", "refuse"), ("#[partial_ord(by = by_po)]", "refuse"),
+    ("#[partial_eq(key = key_f(&$))]", "refuse"), ("#[partial_eq(by = by_b)]", "refuse"),
+    ("#[partial_ord(key = key_ne(&$))] #[eq(key = key_eq(&$))]", "eq"), ("#[partial_eq(key = key_ne(&$))] #[eq(key = key_eq(&$))]", "eq"), ("#[partial_ord(by = by_po)] #[eq(by = by_b)]", None), ("#[ord(key = _eq(&$))]", "ne"), ("#[eq(key = _f(&$))]", "eq"), ("#[ord(key = key_ne(&$))] #[partial_eq(key = key_eq(&$))]", "ne"),
 ]
 FIELD_TYPES = [("u8", True), ("NE", False), ("f32", False), ("Option<NE>", False), ("Vec<u8>", True), ("T", None)]
 
@@ -58,7 +64,7 @@ def programs(ctx):
     i = 0
     combos = list(itertools.product(CONFIGS, FIELD_TYPES, ("struct", "tuple", "enum", "enum_tuple"), (False, True)))
     if ctx.quick:
-        combos = [c for c in combos if "_eq(" in c[0][0] or "_f(" in c[0][0]][:24] + rng.sample(combos, 130) + [c for c in combos if c[2] == "enum_tuple" and c[1][0] in ("u8", "NE") and not c[3]]
+        combos = [c for c in combos if "_eq(" in c[0][0] or "_f(" in c[0][0]][:24] + [c for c in combos if c[0][1] == "refuse" and c[1][0] in ("u8", "T") and c[2] in ("struct", "enum_tuple")] + rng.sample(combos, 130) + [c for c in combos if c[2] == "enum_tuple" and c[1][0] in ("u8", "NE") and not c[3]]
     for (attr, comp), (fty, fty_eq), shape, generic_inst_ne in combos:
         generic = fty == "T"
         if generic:
@@ -69,7 +75,7 @@ def programs(ctx):
             if generic_inst_ne:
                 continue
             inst, fty_is_eq = None, fty_eq
-        must_be_eq = {"field": fty_is_eq, "eq": True, "ne": False, None: True}[comp]
+        must_be_eq = {"field": fty_is_eq, "eq": True, "ne": False, None: True, "refuse": False}[comp]
         g = "<T>" if generic else ""
         if shape == "struct":
             item = "pub struct X%s { %s pub a: %s, pub z: u8 }" % (g, attr, fty)
@@ -95,7 +101,7 @@ def programs(ctx):
     for (c1, c2, (fty, fty_eq), shape) in (always + rng.sample(pairs, 110) if ctx.quick else pairs):
         generic = fty == "T"
         fty_is_eq = False if generic else fty_eq        # generic: instantiated with NE
-        need = [{"field": fty_is_eq, "eq": True, "ne": False, None: True}[c[1]] for c in (c1, c2)]
+        need = [{"field": fty_is_eq, "eq": True, "ne": False, None: True, "refuse": False}[c[1]] for c in (c1, c2)]
         must_be_eq = all(need)
         g = "<T>" if generic else ""
         if shape == "struct":
@@ -171,7 +177,7 @@ def run(ctx):
                     accepted_wrongly += 1
                     ctx.violation("E:C17:accepted:" + p.meta["describe"], "a compared component is not Eq, yet derive_ex(Eq) compiles: the type silently became Eq",
                                   {"layer": "E", "program": p.text, "harness": "", "meta": p.meta, "extra_support": SUPPORT})
-                elif not any(("Eq" in d["message"] and ("not satisfied" in d["message"] or "E0277" == d.get("code"))) for d in diags):
+                elif not any(("Eq" in d["message"] and ("not satisfied" in d["message"] or "E0277" == d.get("code") or _re.search(r"\[components? [^\]]*refuse", p.meta["describe"]))) for d in diags):
                     ctx.violation("E:C17:wrong-reason:" + p.meta["describe"], "refused, but not because a component lacks Eq: " + diags[0]["message"],
                                   {"layer": "E", "program": p.text, "harness": "", "meta": p.meta, "rustc": diags[:2], "extra_support": SUPPORT})
     g = glayer.run_g(ctx, G_UNITS)
